@@ -85,6 +85,11 @@ add("C09", "metamorphic testing: generated programs vs. typed-AST rewrites R1-R4
     "Rewrites are applied only where they preserve meaning by construction (syntactic purity / non-modification analysis on the model AST); variants rejected solely by the documented constant-index rule T0028 are discarded; literal conditions and index literals are not rewritten.",
     "DESIGN.md §4 C09")
 
+add("C06", "exhaustive enumeration of the (place kind x path x mutation form x context) product + rapid-generated nested contexts; twin-program oracle",
+    "Every combination of 15 immutable place kinds (const scalar/struct/fixed array/array of structs/dynamic array, const in a method, two-variable for index, catch variable, &T parameter of struct/array/scalar/dynamic-array type, &T receiver, local &T), their access paths (ident, paren, field chains, constant and negative indices up to depth 4), 9 mutation forms (=, += -= *=, ++ --, &' borrow, passing &', &'-receiver method call, append) and 10 syntactic contexts (5.5k programs) is type-checked on every run; the random part nests 2-3 contexts around the mutation. The program must be rejected; its control twin (binding made mutable, nothing else changed) must be accepted, otherwise the combination is discarded as not expressible. Exhaustive over the grid, sampled over nestings.",
+    "Only the listed forms of mutation are generated; module-level constants are not (they cannot be used in functions today). A wrongly accepted mutation is additionally built and run so that the replay shows the changed value.",
+    "DESIGN.md §4 C06")
+
 def main():
     props = [json.loads(l) for l in open(os.path.join(V, "properties.jsonl"))]
     checks, na = [], []
